@@ -1,0 +1,15 @@
+//go:build verif
+
+package templ
+
+import "bytes"
+
+// VerifBytesPoolHook observes the bytes.Buffer pool in verification builds (build tag `verif`).
+// Events: "get" (after Get), "put" (after Reset, immediately before Put).
+var VerifBytesPoolHook func(ev string, b *bytes.Buffer)
+
+func verifBytesPool(ev string, b *bytes.Buffer) {
+	if h := VerifBytesPoolHook; h != nil {
+		h(ev, b)
+	}
+}
